@@ -167,6 +167,11 @@ func ListenTo(inPort drivers.In, recv func(msg Message, timestampms int32), opts
 			}
 		}
 
+		// nothing to deliver (e.g. an unpaired 0xF7 that only cancels running status)
+		if len(msg) == 0 {
+			return
+		}
+
 		recv(msg, millisec)
 	}
 
